@@ -96,7 +96,8 @@ class C18(Check):
     link_parsec = True
     run_timeout = int(os.environ.get("VERIF_RESHAPE_TIMEOUT", "90"))
     jobs = int(os.environ.get("VERIF_RESHAPE_JOBS", "8"))
-    model_fixed = 0     # 1 once the repairs of notes/findings/C18-*.patch are in /repo
+    # 1 once the repairs of notes/findings/C18-stale-promise.patch are in /repo (the model then follows the repaired code)
+    model_fixed = int(os.environ.get("VERIF_C18_FIXED", "0"))
 
     # ------------------------------------------------------------------ build
     def build_sides(self):
@@ -125,9 +126,9 @@ class C18(Check):
         jdf = G.to_jdf(prog)
         h = hashlib.sha1(jdf.encode()).hexdigest()[:16]
         with self._exe_lock:
-            ent = self._exe.get(h)
+            ent = self._exe.get((tag, h))
             if ent is None:
-                ent = self._exe[h] = {"lock": threading.Lock(), "res": None}
+                ent = self._exe[(tag, h)] = {"lock": threading.Lock(), "res": None}
         with ent["lock"]:
             if ent["res"] is None:
                 ent["res"] = self._build(os.path.join(self.workroot(tag), h), jdf)
@@ -155,7 +156,11 @@ class C18(Check):
 
     # -------------------------------------------------------------------- run
     def run_prog(self, exe, p):
-        args = [exe, str(p.cores), str(p.mt), "--mca", "runtime_comm_coll_bcast", "0"]
+        wd = os.path.dirname(exe)
+        with self._exe_lock:
+            self._runid = getattr(self, "_runid", 0) + 1
+            prefix = os.path.join(wd, "out%d" % self._runid)
+        args = [exe, str(p.cores), str(p.mt), prefix, "--mca", "runtime_comm_coll_bcast", "0"]
         if not p.short:
             args += ["--mca", "runtime_comm_short_limit", "0"]
         env = dict(os.environ)
@@ -164,34 +169,38 @@ class C18(Check):
             args = ["mpiexec", "--allow-run-as-root", "--oversubscribe", "--bind-to", "none", "-n", str(p.nranks)] + args
         else:
             env.update(SINGLE_ENV)
-        for attempt in range(3):
-            rc, o, e = run(args, timeout=self.run_timeout, env=env, cwd=os.path.dirname(exe))
-            if rc in (0, 124) or "RANK" in o or attempt == 2:
-                break
-            # nothing printed: the failure may be in MPI start-up under load; but a crash of the code under
-            # test before the output phase looks the same, so only retry when there is no sign of a signal
-            if "Segmentation" in e or "Signal" in e or "signal" in e or "MPI_ERR" in e or rc < 0:
-                break
-        return rc, o, e
+        rc, o, e = run(args, timeout=self.run_timeout, env=env, cwd=wd)
+        out = ""
+        for r in range(p.nranks):
+            fn = "%s.%d" % (prefix, r)
+            if os.path.exists(fn):
+                with open(fn, errors="replace") as f:
+                    out += f.read()
+                os.unlink(fn)
+        return rc, out, e
 
     def canonical(self, p, rc, out, err):
         """driver output of all ranks -> the observation line of ocaml/d_reshape.ml"""
         if rc == 124:
             return "TIMEOUT"
-        blocks, cur = {}, None
+        blocks = {}
         for line in out.splitlines():
-            w = line.split()
+            if "| " not in line:
+                continue
+            hd, rest = line.split("| ", 1)
+            if not hd.strip().isdigit():
+                continue
+            cur = int(hd)
+            w = rest.split()
             if not w:
                 continue
-            if w[0] == "RANK":
-                cur = int(w[1])
-                blocks[cur] = {"T": [], "X": [], "D": [], "N": 0, "end": None}
-            elif cur is not None and w[0] in ("T", "X", "D"):
-                blocks[cur][w[0]].append(w[1:])
-            elif cur is not None and w[0] == "N":
-                blocks[cur]["N"] = int(w[1])
-            elif cur is not None and w[0] == "END":
-                blocks[cur]["end"] = w[1]
+            b = blocks.setdefault(cur, {"T": [], "X": [], "D": [], "N": 0, "end": None})
+            if w[0] in ("T", "X", "D"):
+                b[w[0]].append(w[1:])
+            elif w[0] == "N":
+                b["N"] = int(w[1])
+            elif w[0] == "END":
+                b["end"] = w[1]
         complete = len(blocks) == p.nranks and all(b["end"] == "rc=0" for b in blocks.values())
         if rc != 0 or not complete:
             return "CRASH"
@@ -249,6 +258,16 @@ class C18(Check):
         rc, o, e = self.run_prog(exe, p)
         line = self.canonical(p, rc, o, e)
         if line in ("CRASH", "TIMEOUT"):
+            # a crash or hang of the code under test is deterministic on these programs; one that does not repeat is
+            # counted as a flaky run of the environment (MPI start-up, overloaded machine) and the second result is used
+            rc2, o2, e2 = self.run_prog(exe, p)
+            line2 = self.canonical(p, rc2, o2, e2)
+            if line2 not in ("CRASH", "TIMEOUT"):
+                self.flaky = getattr(self, "flaky", 0) + 1
+                log("%s: case %d failed once (rc=%d) and ran to completion when repeated; stderr tail of the failure: %s"
+                    % (self.id, i, rc, e.strip()[-600:].replace("\n", " | ")))
+                line = line2
+        if line in ("CRASH", "TIMEOUT"):
             log("%s: case %d -> %s rc=%d; stderr tail: %s" % (self.id, i, line, rc, e.strip()[-300:].replace("\n", " | ")))
         return line
 
@@ -266,4 +285,333 @@ class C18(Check):
                     out[i] = "<impl exception %s>" % exn
         if not os.environ.get("VERIF_KEEP"):
             shutil.rmtree(self.workroot(tag), ignore_errors=True)
+        self.cov["flaky_runs_repeated"] = getattr(self, "flaky", 0)
         return (out + ["<impl missing>"] * n)[:n]
+
+    # ------------------------------------------------------------- metadata
+    theorems = ("C18_convert_selected", "C18_convert_unselected", "C18_convert_length", "C18_shape_same",
+                "C18_shape_kth", "C18_layout_membership", "C18_fulfil_once", "C18_fulfil_idempotent",
+                "C18_same_shape_shared", "C18_other_copies_untouched", "C18_setup_touches_no_copy",
+                "C18_identical_shapes_no_conversion", "C18_uniform_fanout", "C18_same_type_same_promise",
+                "C18_delivery_refuted", "C18_completion_refuted", "C18_repaired_witnesses")
+    level_text = ("partial. Proved (Coq, all sizes): the conversion PaRSEC performs (pack with the source datatype, unpack with "
+                  "the destination datatype) delivers the k-th selected byte to the k-th selected byte and leaves every other byte "
+                  "of the destination tile unchanged, for every tile, every pair of layouts, and for the FULL/LOWER/UPPER/LOWS/UPPS "
+                  "arena datatypes of every tile and element size (layouts from C19); a reshape promise is fulfilled at most once, "
+                  "a fulfilment only adds a copy (producer's, other consumers' and collection copies untouched), consumers requesting "
+                  "the same shape share one copy and one conversion, no conversion when the shapes are identical; one producer with "
+                  "any number of local consumers of any input types behind one promise (one output dependency, or several with the "
+                  "same [type]): every consumer obtains exactly the documented copy (the producer's own, or a new copy = convert(pack "
+                  "layout, unpack layout, producer's data, fresh tile)) and no earlier copy changes. The whole-program "
+                  "statement is REFUTED on the faithful model and replayed on the code (two findings: stale reshape promise carried "
+                  "across output dependencies of different [type]; NULL execution stream crash). Tie: generated typed-flow PTG programs "
+                  "run on 1..4 ranks against the extracted whole-program interpreter (runtime, MPI and datatype engine observed).")
+    level_note = ("Trusted: Coq kernel, extraction, ocaml/d_reshape.ml, checks/C18.py (JDF printer, canonicalisation), "
+                  "harness/reshape_driver.c. The harness replaces the arenas' allocator (0xEE-filled, never reused chunks) so that "
+                  "the content of fresh copies and copy identity are observable, and observes conversions through the MPI profiling "
+                  "interface (MPI_Sendrecv). Modelled, not verified: MPI pack/unpack by type signature; Open MPI 4.1 behaviour on a "
+                  "truncated MPI_Sendrecv to self (silent prefix copy when the send type is contiguous, fatal MPI_ERR_TRUNCATE "
+                  "otherwise); arena memory management; task scheduling (the interpreter is sequential, generated programs are "
+                  "race free by construction). Not modelled: broadcast relays (runs use runtime_comm_coll_bcast=0), flows with "
+                  "several data, GPU copies.")
+    technique = ("Coq proof (conversion for all layouts and tile sizes through C19; promise invariants) + observation differential: "
+                 "generated JDF -> parsec-ptgpp -> cc -> run on 1..4 MPI ranks, compared with the extracted reference interpreter; "
+                 "property oracle on the observations alone")
+    rule = ("a case = random tree of 2..5 task classes (fan-out, chains, replicated consumers) with random [type]/[type_remote]/"
+            "[type_data] attributes over 5 shapes, tile 2..5, element 1/4/8 bytes, random placement, each program run under up to 3 "
+            "configurations (1 rank; 2..4 ranks with and without short messages; MPI_THREAD_MULTIPLE or SERIALIZED). Non-trivial = at "
+            "least one typed dependency or memory access; distinct = program text + number of ranks + short flag")
+    trusted = ("harness/reshape_driver.c: arena allocator hook, MPI_Sendrecv interposition (PMPI), one-dimensional collection",
+               "checks/C18.py + tools/gen_reshape.py: JDF printer, merge and canonical naming of copies (collection tile D<i>, "
+               "fresh copies f<n> in order of first appearance in the sorted task list)")
+    assumptions = ("MPI_Sendrecv/Pack/Unpack move data by type signature (MPI-3.1 section 4.1); Open MPI 4.1 truncation behaviour as observed",
+                   "on a remote edge the packed size of the sender's type equals that of every receiver's type (other programs are "
+                   "rejected by the generator: the short-message path then receives bytes, the rendez-vous path aborts in MPI)",
+                   "with short messages a producer instance sends at most one message per remote rank (the documented unsupported case of "
+                   "tests/collections/reshape/testing_remote_multiple_outs_same_pred_flow.c is excluded)",
+                   "broadcast topology star (runtime_comm_coll_bcast=0): relays are not modelled (see C13 finding F8)",
+                   "generated programs have no data race between task bodies (bodies modify a tile only on pure chains)")
+
+    # ----------------------------------------------------------------- cases
+    def model_filter(self, cases):
+        """keep the cases the model accepts (remote size precondition, well-formedness)"""
+        if not cases:
+            return []
+        os.makedirs(vcheck.CASES, exist_ok=True)
+        cf = os.path.join(vcheck.CASES, "%s-filter-%d.txt" % (self.id, self.seed))
+        with open(cf, "w") as f:
+            for c in cases:
+                f.write(c + "\n")
+        rc, o, e = run([self.mbin(), cf], timeout=600)
+        lines = o.splitlines()
+        if len(lines) != len(cases):
+            return cases
+        return [c for c, l in zip(cases, lines) if not l.startswith("<")]
+
+    def cases(self):
+        r = self.rng
+        nprog = int(os.environ.get("VERIF_C18_NPROG", "22" if self.tier == "quick" else "240"))
+        out, tries, i = [], 0, 0
+        while i < nprog and tries < 40 * nprog:
+            tries += 1
+            p = G.gen_program(r, nranks=1, clean=(i % 2 == 0), maxcls=4 if self.tier == "quick" else 5)
+            nr = r.pick([2, 2, 3, 4])
+            cfgs = [(1, 1)]
+            if G.short_conflict(G.with_config(p, nr, 1)):
+                cfgs.append((nr, 0))
+            else:
+                cfgs.append((nr, r.pick([0, 1])))
+                if r.chance(1, 3):
+                    cfgs.append((nr, 1 - cfgs[-1][1]))
+            mine = []
+            for (n, sh) in cfgs:
+                q = G.with_config(p, n, sh, cores=(p.cores if n == 1 else min(p.cores, 2)))
+                # every conversion the program DECLARES must fit (a program that packs more than it unpacks is
+                # erroneous by itself: MPI truncation)
+                if G.declared(q)[0]:
+                    mine.append(G.to_case(q) + " V %d" % self.model_fixed)
+            if len(mine) >= 2 or (mine and r.chance(1, 4)):
+                out += mine
+                i += 1
+        return self.model_filter(out)
+
+    def corpus(self):
+        return [c if " V " in c else c + " V %d" % self.model_fixed for c in Check.corpus(self)]
+
+    def search_cases(self):
+        # directed: every pair of output types towards two local consumers, every (to, ti) pair on a single edge
+        out = []
+        for a in range(0, 4):
+            for b in range(0, 4):
+                out.append("R 1 1 0 2 M 3 4 N 1 O 3 0 0 0 C 3 c 1 W 0 D 0 0 2 E 1 %d 0 E 2 %d 0 c 1 R 0 T 0 0 0 0 0 c 1 R 0 T 0 0 0 0 0 V %d"
+                           % (a, b, self.model_fixed))
+                out.append("R 1 1 0 2 M 3 4 N 1 O 2 0 0 C 2 c 1 W 0 D 0 0 1 E 1 %d 0 c 1 W 0 T 0 0 %d 0 1 M 0 0 V %d"
+                           % (a, b, self.model_fixed))
+        for a in (2, 3):
+            for b in (2, 3):
+                out.append("R 2 0 0 2 M 3 4 N 1 O 2 0 1 C 2 c 1 W 0 D 0 0 1 E 1 0 %d c 1 W 0 T 0 0 0 %d 1 M 0 0 V %d"
+                           % (a, b, self.model_fixed))
+        out = [c for c in out if G.declared(self._prog(c))[0]]
+        return self.model_filter(out)
+
+    @staticmethod
+    def _prog(case):
+        return G.parse_case(case.split(" V ")[0])
+
+    def nontrivial_key(self, case):
+        try:
+            p = self._prog(case)
+        except Exception:
+            return None
+        typed = 0
+        for c in p.classes:
+            typed += sum(1 for x in c.inp[1:] if c.inp[0] == "D" and x) + (sum(1 for x in c.inp[3:] if x) if c.inp[0] == "T" else 0)
+            for o in c.outs:
+                typed += sum(1 for x in (o[2:] if o[0] == "E" else o[1:]) if x)
+        if typed == 0:
+            return None
+        return (G.to_jdf(p), p.nranks, p.short)
+
+    def dist(self, cases):
+        d = {"cases": len(cases), "ranks": {}, "short": {}, "mt": {}, "classes": {}, "mb": {}, "esz": {}, "remote_edges": 0,
+             "local_edges": 0, "typed_out": 0, "typed_in": 0, "type_remote": 0, "writebacks": 0, "typed_reads": 0,
+             "replicated": 0, "modify": 0}
+        for c in cases:
+            try:
+                p = self._prog(c)
+            except Exception:
+                continue
+            for k, v in (("ranks", p.nranks), ("short", p.short), ("mt", p.mt), ("classes", len(p.classes)), ("mb", p.mb), ("esz", p.esz)):
+                d[k][str(v)] = d[k].get(str(v), 0) + 1
+            for ci, C in enumerate(p.classes):
+                d["replicated"] += 1 if C.R > 1 else 0
+                d["modify"] += C.modify
+                if C.inp[0] == "D":
+                    d["typed_reads"] += 1 if (C.inp[1] or C.inp[2]) else 0
+                else:
+                    d["typed_in"] += 1 if C.inp[3] else 0
+                    d["type_remote"] += 1 if C.inp[4] else 0
+                for o in C.outs:
+                    if o[0] == "M":
+                        d["writebacks"] += 1
+                    else:
+                        d["typed_out"] += 1 if o[2] else 0
+                        d["type_remote"] += 1 if o[3] else 0
+                if C.R == 1:
+                    for k in range(p.nt):
+                        me = p.rank_of(ci, k, 0)
+                        for u in G.succs(p, ci, k):
+                            d["remote_edges" if u["rank"] != me else "local_edges"] += 1
+        return d
+
+    # ---------------------------------------------------------------- oracle
+    @staticmethod
+    def expected_local(d, to, ti):
+        """CHANGELOG.ptg.md, 'propagation of dependencies between local tasks': (pack, unpack) or None (no reshape)"""
+        p = d if (to == 0 or to == d) else to
+        u = p if ti == 0 else ti
+        return None if (p == d and u == d) else (p, u)
+
+    def oracle(self, case, obs):
+        r = self.judge(case, obs)
+        return r[0] if r else None
+
+    def judge(self, case, obs):
+        """-> None (property holds on this observation) or (why, class of failure, detail for the signature)"""
+        try:
+            p = self._prog(case)
+        except Exception:
+            return None
+        O = Obs(obs)
+        if obs.strip() == "TIMEOUT":
+            return ("the program did not terminate within the time limit", "hang", None)
+        if O.crash:
+            return ("the program crashed: no consumer observed its copy", "crash", None)
+        if O.bad:
+            return (O.bad, "unreadable", None)
+        mb, esz = p.mb, p.esz
+        nb = mb * mb * esz
+        sel = {s: sel_bytes(s, mb, esz) for s in range(1, 6)}
+        code = {n: i for i, n in enumerate(SHN)}
+        # every instance ran once and saw a tile
+        for ci, C in enumerate(p.classes):
+            for k in range(p.nt):
+                for r in range(C.R):
+                    if (ci, k, r) not in O.tasks:
+                        return ("instance C%d(%d,%d) did not run" % (ci, k, r), "missing-task", None)
+        after = {}
+        for key, (ptr, dtt, data) in O.tasks.items():
+            if len(data) != nb:
+                return ("C%d(%d,%d) logged %d bytes" % (key + (len(data),)), "unreadable", None)
+            m = p.classes[key[0]].modify
+            after[key] = [x ^ (key[0] + 1) for x in data] if m else data
+        # O1: delivery along every edge
+        for ci, C in enumerate(p.classes):
+            if C.R != 1:
+                continue
+            for k in range(p.nt):
+                me = p.rank_of(ci, k, 0)
+                sptr, sdtt, _ = O.tasks[(ci, k, 0)]
+                P = after[(ci, k, 0)]
+                d = code.get(sdtt, 0)
+                ss = G.succs(p, ci, k)
+                seen_local = 0
+                for u in ss:
+                    key = (u["q"], u["k"], u["r"])
+                    tptr, tdtt, R = O.tasks[key]
+                    local = (u["rank"] == me)
+                    where = "C%d(%d,%d) <- C%d(%d,0)" % (key + (ci, k))
+                    if local:
+                        exp = self.expected_local(d, u["to"], u["ti"])
+                        cls = "local-later" if seen_local else "local-first"
+                        seen_local += 1
+                    else:
+                        exp = (u["tro"] or d, u["tri"] or 1)
+                        cls = "remote"
+                    if exp is None:
+                        if tptr != sptr:
+                            return ("%s: shapes are identical but the consumer was given another copy (%s, producer has %s)"
+                                    % (where, tptr, sptr), cls, "copied")
+                        if R != P:
+                            return ("%s: shares the producer's copy but does not see the producer's data" % where, cls, "data")
+                        continue
+                    pk, un = exp
+                    if pk not in sel or un not in sel:
+                        return ("%s: producer copy of unknown type %s" % (where, sdtt), cls, "type")
+                    if tptr == sptr:
+                        return ("%s: a conversion %s -> %s is declared but the consumer was given the producer's own copy"
+                                % (where, SHN[pk], SHN[un]), cls, "aliased")
+                    if tptr.startswith("D"):
+                        return ("%s: the consumer's converted copy is a tile of the collection (%s)" % (where, tptr), cls, "aliased")
+                    n = min(len(sel[pk]), len(sel[un]))
+                    for j in range(n):
+                        if R[sel[un][j]] != P[sel[pk][j]]:
+                            return ("%s: declared conversion %s -> %s, but byte %d of the consumer's copy (selected #%d) is %02x, "
+                                    "the producer's selected #%d (byte %d) is %02x; consumer copy %s of type %s"
+                                    % (where, SHN[pk], SHN[un], sel[un][j], j, R[sel[un][j]], j, sel[pk][j], P[sel[pk][j]], tptr, tdtt),
+                                    cls, "data")
+                    if len(sel[pk]) <= len(sel[un]):
+                        got = set(sel[un][:n])
+                        for b in range(nb):
+                            if b not in got and R[b] != 0xEE:
+                                return ("%s: byte %d of the consumer's fresh copy is outside the received part of %s but holds %02x "
+                                        "(a fresh arena chunk holds ee)" % (where, b, SHN[un], R[b]), cls, "unselected")
+                # consumers of this instance on one rank with the same declared conversion share one copy
+                groups = {}
+                for u in ss:
+                    if u["rank"] != me:
+                        continue
+                    exp = self.expected_local(d, u["to"], u["ti"])
+                    if exp is not None:
+                        groups.setdefault(exp, set()).add(O.tasks[(u["q"], u["k"], u["r"])][0])
+                for exp, ptrs in groups.items():
+                    if len(ptrs) > 1:
+                        return ("consumers of C%d(%d,0) with the same conversion %s -> %s hold different copies %s"
+                                % (ci, k, SHN[exp[0]], SHN[exp[1]], sorted(ptrs)), "local-later", "not-shared")
+        # O4: at most one conversion per (source copy, source type, destination type) into a fresh copy
+        seen = set()
+        dtt_of = {ptr: dtt for (ptr, dtt, _) in O.tasks.values()}
+        for (sp, st, sc, dp, dt) in O.convs:
+            if dp.startswith("D"):
+                continue
+            if sp == dp:
+                return ("a conversion was applied in place on copy %s" % sp, "conversion", "in-place")
+            if sp != "u":
+                if (sp, st, dt) in seen:
+                    return ("copy %s was converted %s -> %s twice" % (sp, st, dt), "conversion", "twice")
+                seen.add((sp, st, dt))
+                # O5: no conversion when the shapes are identical
+                if st == dt and dtt_of.get(sp) == st:
+                    return ("copy %s of type %s was converted to its own type" % (sp, st), "conversion", "identity")
+        # final content of the collection: only declared write-backs and in-place bodies may change a tile
+        for ci, C in enumerate(p.classes):
+            wb = [o for o in C.outs if o[0] == "M"]
+            for k in range(p.nt):
+                for r in range(C.R):
+                    t = p.tile(ci, k, r)
+                    init = [(37 * t + 11 * b + 5) & 0xff for b in range(nb)]
+                    for key, (ptr, dtt, data) in O.tasks.items():
+                        if ptr == "D%d" % t and p.classes[key[0]].modify:
+                            init = [x ^ (key[0] + 1) for x in init]
+                    fin = O.tiles.get(t)
+                    if fin is None:
+                        return ("tile %d missing from the final dump" % t, "unreadable", None)
+                    exp = list(init)
+                    ptr, dtt, _ = O.tasks[(ci, k, r)]
+                    if wb and ptr != "D%d" % t:
+                        pk = wb[0][1] or code.get(dtt, 0)
+                        un = wb[0][2] or 1
+                        if pk in sel and un in sel and len(sel[pk]) <= len(sel[un]):
+                            src = after[(ci, k, r)]
+                            for j in range(len(sel[pk])):
+                                exp[sel[un][j]] = src[sel[pk][j]]
+                        else:
+                            continue
+                    if fin != exp:
+                        b = [i for i in range(nb) if fin[i] != exp[i]][0]
+                        return ("tile %d of the collection: byte %d is %02x at the end, expected %02x (%s)"
+                                % (t, b, fin[b], exp[b], "after the write-back of C%d(%d,%d)" % (ci, k, r) if wb else "nobody writes it back"),
+                                "collection", "writeback" if wb else "altered")
+        return None
+
+    def signature(self, case, obs):
+        """stable class of a failing input (KNOWN_FINDINGS matching)"""
+        r = self.judge(case, obs)
+        if not r:
+            return "none"
+        why, cls, detail = r
+        try:
+            p = self._prog(case)
+        except Exception:
+            return cls
+        mixed = G.mixed_outputs(p)
+        if cls in ("crash", "hang"):
+            # the known crashes need a producer that serves one rank through output dependencies of different [type]
+            return "%s-mixed-outputs" % cls if mixed else cls
+        if cls == "local-later" and mixed:
+            # a local consumer that is not the first one served by its producer: it received the promise carried over
+            # from the previous output dependency
+            return "stale-promise"
+        if cls in ("collection", "conversion") and mixed:
+            return "stale-promise-%s" % cls
+        return "%s-%s" % (cls, detail) if detail else cls
